@@ -287,6 +287,7 @@ var c10Leaves = []*spec.V{spec.NilV, spec.I(1), spec.S("s")}
 var c10Keys = []string{"a", "b", "0", "1"}
 
 func runC10(c *ev.Ctx) {
+	defer sizeSweep(c, "C10")
 	nodes, k, nodesDeep, kDeep := 4, 3, 3, 4
 	if c.Thorough() {
 		nodes, nodesDeep = 5, 4
@@ -298,8 +299,8 @@ func runC10(c *ev.Ctx) {
 	stop := func() bool { return c.Expired() || c.TooMany() }
 	en := spec.NewEnum(c10Leaves, c10Keys)
 	runOn := c10Run(c, stop)
-	en2 := spec.NewEnum(c10Leaves, []string{string(rune(0xE9)), "ab", ""})
-	p2 := pathAlphabetOver(3, []string{string(rune(0xE9)), "ab", "0", "1", "a", ""})
+	en2 := spec.NewEnum(c10Leaves, []string{string(rune(0xE9)), "ab", "", "a "})
+	p2 := pathAlphabetOver(3, []string{string(rune(0xE9)), "ab", "0", "1", "a", "a ", " a", ""})
 	runOn(en2, 4, p2, "multi-byte, multi-character and EMPTY keys {U+00E9, ab, \"\"}: all trees x (own paths + corruptions + all paths of <= 3 segments)", true)
 	runOn(en, nodes, p3, "all trees x (own paths + corruptions + all paths of <= 3 segments)", true)
 	runOn(en, nodesDeep, pDeep, "small trees x all paths of <= 4 segments", false)
